@@ -173,6 +173,8 @@ def main(tier):
     import bounds
     rep.attempt(bounds.check, rep, {'raid_pq_gen', 'raid_pq_check', 'ec_dot_prod', 'ec_mad', 'ec_mul', 'mem_zero'}, 'BLOCK', 77)
     rep.attempt(bounds.check, rep, {'crc', 'crc_copy', 'adler'}, 'CRC', 30)
+    import guardloop
+    rep.attempt(guardloop.check, rep, 'ALL', r'.', 55)
     rep.analysed.update(asm_units=len(units), kernels=len(res), families=sorted({i['fam']['family'] for i in res.values()}),
                         memory_operands=sum(len(i['accesses']) for i in res.values()))
     return rep.finish()
